@@ -36,7 +36,7 @@ The property the project is supposed to satisfy:
 Task: produce TWO different small code changes (patch A and patch B, each relative to the clean checkout, with different mechanisms / in different places) that each BREAK this property for some inputs, schedules, histories or crash points, while
   (1) the tree still compiles:  go build ./...
   (2) the existing unit test suite still passes:  go test -vet=off -count=1 $(go list ./... | grep -v cmd/versitygw)
-The changes must be REALISTIC: the kind of mistake a maintainer could plausibly introduce during a refactoring, optimisation, bug fix, dependency-API migration or a small feature. No sabotage, no changes to tests, no changes under verifhook/ and do not remove or move existing `verifhook.At(...)` lines. Keep each patch small (typically 1-20 changed lines; it may span two files if the feature needs it). The change must need something SPECIFIC to manifest - a particular interleaving of two requests, a crash or I/O fault at a particular point, a multi-step sequence of operations (state left behind by an earlier request on the key / bucket / account), an unusual input class, a non-default configuration (e.g. --sidecar, --versioning-dir, --disableotmp, --readonly, --access-log, --iam-cache-*, --admin-port, s3 proxy backend, non-default header combinations), or two cooperating sites that each look fine alone - and ordinary smoke tests must still pass. Ten earlier attempts per property are listed below; yours must differ from all of them in mechanism AND in the input class that exposes it. Prefer: a second-order effect of a change that looks correct locally; an interaction of two features (versioning x object lock, multipart x checksums, directory objects x anything, ACL x policy, sidecar x versioning, proxy x anything, presigned x anything); error paths and clean-up paths; state that survives from an earlier request; code paths far from the files listed above that the property nevertheless depends on (controllers, middlewares, metadata stores, helpers in backend/common.go, auth/, s3event/, s3log/).
+The changes must be REALISTIC: the kind of mistake a maintainer could plausibly introduce during a refactoring, optimisation, bug fix, dependency-API migration or a small feature. No sabotage, no changes to tests, no changes under verifhook/ and do not remove or move existing `verifhook.At(...)` lines. Keep each patch small (typically 1-20 changed lines; it may span two files if the feature needs it). The change must need something SPECIFIC to manifest - a particular interleaving of two requests, a crash or I/O fault at a particular point, a multi-step sequence of operations (state left behind by an earlier request on the key / bucket / account), an unusual input class, a non-default configuration (e.g. --sidecar, --versioning-dir, --disableotmp, --readonly, --access-log, --iam-cache-*, --admin-port, s3 proxy backend, non-default header combinations), or two cooperating sites that each look fine alone - and ordinary smoke tests must still pass. Twelve earlier attempts per property are listed below; yours must differ from all of them in mechanism AND in the input class that exposes it. Prefer: a second-order effect of a change that looks correct locally; an interaction of two features (versioning x object lock, multipart x checksums, directory objects x anything, ACL x policy, sidecar x versioning, proxy x anything, presigned x anything); error paths and clean-up paths; state that survives from an earlier request; code paths far from the files listed above that the property nevertheless depends on (controllers, middlewares, metadata stores, helpers in backend/common.go, auth/, s3event/, s3log/).
 
 Already tried by others for this property (do NOT repeat these ideas or close variants):
 {chr(10).join(tried)}
